@@ -21,10 +21,11 @@ ASSUME = [
     "clang's x86-64 code generation stands in for the BPF back end; the in-kernel verifier is not exercised",
     "kernel map semantics (hash, array, LPM trie) are modelled as byte tables; the LPM model is cross-checked "
     "against a real kernel LPM trie on every lookup of the run",
-    "frame model of the theorems: Ethernet II with the ethertype at offset 12 (no VLAN tag in the packet data); "
-    "tagged frames are finding D51",
-    "AddBinding rewrites the whole record (an existing IPv6 part is cleared) — taken as the specified meaning of the call",
-    "the mode in force for a MAC is the mode its binding was added with, else the configured default mode",
+    "frame model of the theorems: Ethernet II with the IP ethertype at offset 12; frames carrying IP behind a VLAN tag "
+    "(0x8100/0x88a8/0x9100/0x9200) or a PPPoE session header are finding D51 (the monitors look inside them)",
+    "spec state of the monitors: AddBinding changes the IPv4 address only (an IPv6 binding stays), AddBindingV6 the IPv6 "
+    "address only, SetMode sets the mode in force for every MAC (bound or not)",
+    "the manager handles 6-byte MACs and prefix masks; every other call must be refused (checked), the theorems are stated for those",
 ]
 
 
